@@ -2,6 +2,7 @@ package main
 
 import (
 	"fmt"
+	"go/constant"
 	"go/token"
 	"go/types"
 	"sort"
@@ -1012,22 +1013,39 @@ func checkC04(w *World, r *Report) {
 			}
 			cmp := map[string]bool{}
 			accP := a.findAcc.Params[1]
-			for _, b := range a.findAcc.Blocks {
-				for _, in := range b.Instrs {
-					bo, ok := in.(*ssa.BinOp)
+			// decided by exploration: assuming that field f of the state's account differs from field f of the account
+			// looked for (every ==/!= between the two decided accordingly, in the lookup or in a predicate helper it
+			// calls), no position may be returned - whatever the comparison is spelled like
+			for f := range keyFields {
+				f := f
+				nCmp := 0
+				live := ReachUnder(a.findAcc, func(base ssa.Value) (bool, bool) {
+					bo, ok := base.(*ssa.BinOp)
 					if !ok || (bo.Op != token.EQL && bo.Op != token.NEQ) {
-						continue
+						return false, false
 					}
 					_, f1, ok1 := fieldOfValue(bo.X)
 					_, f2, ok2 := fieldOfValue(bo.Y)
-					if !ok1 || !ok2 || f1 != f2 {
-						continue
+					if !ok1 || !ok2 || f1 != f2 || f1 != f {
+						return false, false
 					}
 					// one side from the parameter account, the other from a state's Account
 					px, py := rootParam(bo.X) == accP.Name(), rootParam(bo.Y) == accP.Name()
-					if px != py {
-						cmp[f1] = true
+					if px == py {
+						return false, false
 					}
+					nCmp++
+					return bo.Op == token.NEQ, true
+				})
+				found := false
+				for _, v := range live.LiveReturns(a.findAcc, 0) {
+					c, isC := v.(*ssa.Const)
+					if !isC || c.Value == nil || constant.Sign(constant.ToInt(c.Value)) >= 0 {
+						found = true
+					}
+				}
+				if nCmp > 0 && !found {
+					cmp[f] = true
 				}
 			}
 			// comparison through the key function also counts
